@@ -147,13 +147,20 @@ impl HttpProtocol {
     }
 }
 
+impl HttpProtocol {
+    /// The protocol used to send a request with this HTTP version, if the client supports it.
+    pub fn from_version(version: ::http::Version) -> Option<Self> {
+        match version {
+            ::http::Version::HTTP_11 | ::http::Version::HTTP_10 => Some(Self::Http1),
+            ::http::Version::HTTP_2 => Some(Self::Http2),
+            _ => None,
+        }
+    }
+}
+
 impl From<::http::Version> for HttpProtocol {
     fn from(version: ::http::Version) -> Self {
-        match version {
-            ::http::Version::HTTP_11 | ::http::Version::HTTP_10 => Self::Http1,
-            ::http::Version::HTTP_2 => Self::Http2,
-            _ => panic!("Unsupported HTTP protocol"),
-        }
+        Self::from_version(version).unwrap_or_else(|| panic!("Unsupported HTTP protocol"))
     }
 }
 
